@@ -3,14 +3,17 @@ import random
 from .. import core, gen, ref
 from . import cu
 
-MODULES = ['DsdVerif.Props.C08']
-GEN_FILES = []
+MODULES = ['DsdVerif.Props.C08', 'DsdVerif.Props.PyFuncs']
+GEN_FILES = ['PyFuncs']
 THEOREM_NAMES = ['loop_index_spec', 'loop_index_modes_agree', 'exterior_spec', 'not_connected_of_error', 'error_of_not_connected',
                  'makeLoopIndex_linear',
                  # object level (Model/CplxObject): Props/C08Obj.lean
                  'isConnected_iff', 'disconnected_views_raise', 'disconnected_no_cache', 'exterior_enclosed_partition',
                  'views_after_rotation']
-THEOREMS = ['Dsd.C08.' + t for t in THEOREM_NAMES]
+THEOREMS = ['Dsd.C08.' + t for t in THEOREM_NAMES] + ['Dsd.PyFuncs.' + t for t in [
+    # make_loop_index / make_pair_table as written in the source (Gen/PyFuncs.lean, regenerated on every run)
+    'py_make_loop_index_eq', 'py_loop_index_of_py_pair_table', 'py_loop_index_components_total',
+    'py_loop_index_raises_iff_disconnected', 'py_make_pair_table_eq']]
 ASSUMPTIONS = [
     'make_loop_index is hand-modelled on linear positions (Model/Complex.lean: loopStep, makeLoopIndex) and tied to the code by the '
     'correspondence stream `loop` (both `components` modes)',
@@ -30,7 +33,8 @@ MANIFEST = {
             'exactly once, in strand-major order; a position is exterior iff the pairs enclosing it are exactly those enclosing some '
             'nick or the outer end), views_after_rotation (after turns = v the views are the re-indexed views). The model is tied to '
             'make_loop_index by exhaustive correspondence in both `components` modes and to the object views by the C03 / C08 streams; '
-            'is_domainlevel_complement is decided on the real code against an independent reference.',
+            'is_domainlevel_complement is decided on the real code against an independent reference.'
+            ' STATEMENT LEVEL, FROM THE SOURCE: make_loop_index is transcribed statement by statement from the working tree (Gen/PyFuncs.lean) and proved equal to the model, in both modes, on every table make_pair_table returns (py_make_loop_index_eq, py_loop_index_of_py_pair_table); py_loop_index_raises_iff_disconnected: the source-derived function raises SecondaryStructureError exactly for disconnected complexes, py_loop_index_components_total: components mode never raises; on arbitrary ill-formed tables the transcription is run against the code (same faults).',
     'note': 'is_domainlevel_complement is checked by the oracle only; trusted base as in DESIGN.md section 3.',
     'technique': 'Lean 4 invariant proof over the loop-index scan (innermost enclosing pair = stack top) + connectivity by descent; correspondence check',
 }
@@ -183,6 +187,17 @@ def run(res, proof):
         core.compare_streams(res, 'complex_utils.loop_index', lines, impl, model)
     except core.DriverBroken as e:
         proof.problem('driver', str(e))
+    # the source-derived make_loop_index on the same inputs, and on ARBITRARY tables (partners out of range, asymmetric,
+    # crossing): there the translation must fail exactly like the code (IndexError from the empty stack, ...)
+    xops = []
+    for _ in range(400 if res.tier == 'quick' else 4000):
+        ns = rng.randint(1, 3)
+        lens = [rng.randint(0, 3) for _ in range(ns)]
+        tab = [[(None if rng.random() < 0.5 else (rng.randint(0, ns), rng.randint(0, 3))) for _ in range(l)] for l in lens]
+        xops.append(('loop.pt', cu.show_pt(tab), rng.choice('01')))
+    ximpl = [cu.impl_op(cux, op) for op in xops]
+    res.evaluations += len(xops)
+    cu.source_derived_stream(res, proof, 'complex_utils.loop_index.source-derived', ops + xops, impl + ximpl)
     for op in ops[::max(1, len(ops) // 8)]:
         res.sample('\t'.join(op))
 
